@@ -364,6 +364,15 @@ def rule_alphabets(model, rep):
         rep.check(len(a2b) == 1 and (strict or bool(guard)), R2, site("b64s_decode", un) + " alphabet", "a2b_base64(data)  # non-strict: skips foreign bytes, ignores data after '='",
                   "bytes outside the base64 alphabet (and data after a padding group) are refused, not skipped",
                   witness="b64s_decode(b'YW@@@@Jj') == b64s_decode(b'YWJj') == b'abc': pbkdf2_sha256.verify() accepts a hash whose salt field was altered with junk characters")
+        # ... and the alphabet the guard admits is exactly the one the decoder reads: the 64 symbols of RFC 4648 section 4
+        std = b"ABCDEFGHIJKLMNOPQRSTUVWXYZabcdefghijklmnopqrstuvwxyz0123456789+/"
+        for g in guard:
+            for c in ast.walk(g.test):
+                if isinstance(c, ast.Call) and isinstance(c.func, ast.Attribute) and c.func.attr == "translate" and len(c.args) == 2 and ast.unparse(c.args[0]) == "None":
+                    v = model.fold(u, c.args[1])
+                    ok = isinstance(v, bytes) and len(v) == 64 and set(v) == set(std)
+                    rep.check(ok, R2, site("b64s_decode", un) + " admitted alphabet", repr(v)[:90], "the guard admits exactly the 64 symbols a2b_base64 decodes (A-Z a-z 0-9 + /)",
+                              witness="with './' in place of '+/' every salt whose base64 holds '+' is refused: libpass pbkdf2 verify() raises TypeError for a hash its own hash() produced")
         fn = model.func(un, "ab64_encode")
         rep.check(returns(fn) == ["b64s_encode(data).replace(b'+', b'.')"], R2, site("ab64_encode", un), "; ".join(returns(fn)), "ab64 encode = base64 with '+' replaced by '.'",
                   witness="pbkdf2 hashes contain '+' / the wrong character is replaced")
@@ -381,6 +390,17 @@ def rule_alphabets(model, rep):
     ok = len(tr) == 1 and model.unit(BIN).enclosing(tr[0], ast.If) is None
     rep.check(ok, R2, site("b32decode"), ast.unparse(tr[0])[:50] if tr else "<none>", "typo correction applies to text and bytes input alike",
               witness="bytes keys with a mistyped 0/8 are refused although text keys are repaired")
+    # the typo table is built by compile_byte_translation(): every entry of the mapping lands in the table
+    cb = model.func(BIN, "compile_byte_translation")
+    ub = model.unit(BIN)
+    stores = [n for n in walk_no_nested(cb) if isinstance(n, ast.Subscript) and isinstance(n.ctx, ast.Store) and ast.unparse(n.value) == "target"]
+    loops = [n for n in walk_no_nested(cb) if isinstance(n, ast.For) and ast.unparse(n.iter) == "mapping.items()"]
+    ok = len(stores) == 1 and len(loops) == 1 and any(stores[0] is x for x in ast.walk(loops[0])) and not any(stores[0] is x for st in loops[0].orelse for x in ast.walk(st)) \
+        and isinstance(loops[0].target, ast.Tuple) and [ast.unparse(e) for e in loops[0].target.elts] == [ast.unparse(stores[0].slice), ast.unparse(ub.parent(stores[0]).value)]
+    rep.check(ok, R2, site("compile_byte_translation") + " (b32 typo table)", f"{len(stores)} store(s) to target[...], inside the mapping loop: {ok}",
+              "each (key, value) of the mapping is written to the table inside the loop over mapping.items()",
+              witness="only the last entry is applied: b32decode('8...') raises 'Non-base32 digit found' although 8 -> B is a documented repair")
+    rep.check(returns(cb) == ["B_EMPTY.join(target)"], R2, site("compile_byte_translation") + " (b32 typo table)", "; ".join(returns(cb)), "the table is the joined target list")
     rep.check("remainder = len(source) & 7" in t and "source += _b32_decode_pad[:-remainder]" in t, R2, site("b32decode"), "pad to multiple of 8", "padding restored to a multiple of 8")
     v = model.fold(model.unit(BIN), ast.Name(id="_b32_decode_pad", ctx=ast.Load()))
     rep.check(v == b"=" * 8, R2, site("_b32_decode_pad"), repr(v), "pad source is 8 '='")
@@ -428,3 +448,6 @@ def run(model, rep):
     # error mapping: every decode-table lookup turns KeyError into ValueError (rule shared with C08.c)
     from . import c08, shared
     c08.rule_c(model, shared.Renamed(rep, {"C08.c": "C12.h-error-mapping"}))
+    # h64 / h64big / bcrypt64 are LazyBase64Engine instances: the tables exist before the engine reports itself initialised (rule shared with C19)
+    from . import c19
+    c19.rule_a(model, shared.Renamed(rep, {"C19.a": "C12.i-lazy-engine-init"}, "C12.x-", only=lambda s: "LazyBase64Engine" in s))
